@@ -42,6 +42,7 @@ def handle (line : String) : String :=
     | _, _, _ => "bad-request supported"
   | ["conv", op, arg] => handleConv op arg
   | ["ser", arg] => handleSer arg
+  | ["json", arg] => handleJson arg
   | ["evalser", rules, input, env, oracle] => handleEvalSer rules input env oracle
   | ["builder", ops, xid] => handleBuilder ops xid
   | ["lex", t] => handleLex t
